@@ -716,6 +716,8 @@ class ParallelProcess(Process):
         })
         self.profile = profile
         self._stats_objs = stats_objs
+        # parent-side copy of the wrapped process's schema
+        self._schema = process.schema
         assert not self.profile or self._stats_objs is not None
         # Linux's default ``fork`` start method causes a lot of random
         # issues, including python/cpython#110770 (prompted this change)
@@ -800,10 +802,13 @@ class ParallelProcess(Process):
 
     @property
     def schema(self) -> Optional[Schema]:
-        return self.run_command('schema')
+        # The parent keeps a copy so that reading the schema does not
+        # need the child, which may be busy computing an update.
+        return self._schema
 
     @schema.setter
     def schema(self, value: Optional[Schema]) -> None:
+        self._schema = value
         self.run_command('set_schema', (value,))
 
     def merge_overrides(self, override: Schema) -> None:
